@@ -6,7 +6,7 @@ import progs, numprogs
 
 LEVEL = "proof"
 META = dict(
-    technique="Lean 4: a whole-program soundness theorem, by induction over the evaluator, for the three passes that preserve outcome AND state exactly (Partial_Fold, If, Dead_Code on constants: applied everywhere in the tree and in every function body), resting on a fuel-independence theorem for the evaluator model; theorems about each rewrite of the other passes of a Lean model of the optimizer pipeline (tied to chaiscript_optimizer.hpp by comparing the trees the real parser builds, optimized and unoptimized, with the model's on every run) + differential execution of the real engine with Optimizer_Default vs an identity optimizer",
+    technique="Lean 4: a whole-program soundness theorem, by induction over the evaluator, for the three passes that preserve outcome AND state exactly (Partial_Fold, If, Dead_Code on constants: applied everywhere in the tree and in every function body) and for Unused_Return (outcome and state up to the write-only saved call parameters), resting on a fuel-independence theorem for the evaluator model; theorems about each rewrite of the other passes of a Lean model of the optimizer pipeline (tied to chaiscript_optimizer.hpp by comparing the trees the real parser builds, optimized and unoptimized, with the model's on every run) + differential execution of the real engine with Optimizer_Default vs an identity optimizer",
     text=("The optimizer's nine passes are modelled in Lean (Model/Chai/Opt.lean) over the evaluator model's syntax; on every run the real parser is run "
           "with Optimizer_Default and with an identity optimizer on generated, optimizer-biased programs and both trees must equal the model's "
           "(`optimizeProgram` / the unoptimized build), node for node. Kernel-checked, for every state, environment and fuel: If selects exactly the "
@@ -19,8 +19,11 @@ META = dict(
           "[result_independent_of_fuel: sixth induction over the evaluator]; Partial_Fold, If and Dead_Code (constants) applied bottom-up to every node and every "
           "function body and guard leave outcome and the entire state of every evaluation unchanged, from every state with intact literals, for every program "
           "[exact_passes_preserve_evaluation, optimized_program_same_result: seventh induction; ifPassX_is_ifPass, keepersC_is_keepers tie the three passes to the "
-          "pipeline's]. The whole-program equivalence of Block/For_Loop/Assign_Decl/Unused_Return/Constant_Fold/Dead_Code-on-noops (which change unobservable state: "
-          "temporaries, saved parameters, allocation order) is NOT proved: it is decided by running the real engine both ways. Deciding part on the real code: every generated program (with a C++ exception injected at a "
+          "pipeline's]. Unused_Return on whole programs: setting the flag on EVERY call of the tree and of every function body — and even replacing the saved call "
+          "parameters of the start state — leaves the outcome of every evaluation unchanged and the state unchanged except for the contents of call_params, which "
+          "nothing reads [unused_return_unobservable, flag_assignments_equivalent, unused_return_pass_only_flags: eighth induction, Lemmas/ChaiRunWp.lean]; combined: "
+          "[exact_passes_and_unused_return]. The whole-program equivalence of Block/For_Loop/Assign_Decl/Constant_Fold/Dead_Code-on-noops (which change "
+          "temporaries, scope depth of cached lookups and allocation order: a relation between different heaps would be needed) is NOT proved: it is decided by running the real engine both ways. Deciding part on the real code: every generated program (with a C++ exception injected at a "
           "random callback for half of them) and every script of the repository's unit-test corpus must give the same result, output, callback log, "
           "stack shape and surviving names with the default optimizer and with optimization disabled; the Lean evaluator run on the optimized and on "
           "the unoptimized tree must agree with the engine in both configurations."),
